@@ -191,6 +191,40 @@ theorem step_uOpAll_agree (desc : FieldDesc) {s : St α} (hs : StoreOKU V s) (op
 end StepUStr
 end UPart
 
+/-! ### the complete univariate layer through `runOps` -/
+section RunU
+variable {α : Type} {env env' : Env α} {V : Nat → α → Prop} (h : EnvAgreeU env env' V)
+include h
+
+omit h in
+/-- every element-level and univariate operation except the raw decoders `enc` / `coefs` -/
+def elemOrUOpAll (op : Op) : Bool := elemOpAll op || uOpAll op
+
+theorem step_elemOrUAll_agree (desc : FieldDesc) {s : St α} (hs : StoreOKU V s) (op : Op)
+    (hop : elemOrUOpAll op = true) :
+    step env' desc s op = step env desc s op ∧ StoreOKU V (step env desc s op).1 := by
+  unfold elemOrUOpAll at hop
+  rw [Bool.or_eq_true] at hop
+  rcases hop with hop | hop
+  · exact step_elemAll_agree h desc hs op hop
+  · exact step_uOpAll_agree h desc hs op hop
+
+theorem runOps_elemOrUAll_agree (desc : FieldDesc) (ops : List Op)
+    (hops : ∀ op ∈ ops, elemOrUOpAll op = true) :
+    ∀ {s : St α}, StoreOKU V s →
+      runOps env' desc s ops = runOps env desc s ops ∧ StoreOKU V (runOps env desc s ops).1 := by
+  induction ops with
+  | nil => intro s hs; exact ⟨rfl, hs⟩
+  | cons op t ih =>
+    intro s hs
+    obtain ⟨e, hs'⟩ := step_elemOrUAll_agree h desc hs op (hops op List.mem_cons_self)
+    obtain ⟨e2, hs2⟩ := ih (fun o ho => hops o (List.mem_cons_of_mem _ ho)) hs'
+    simp only [runOps]
+    rw [e, e2]
+    exact ⟨rfl, hs2⟩
+
+end RunU
+
 /-! ## bivariate polynomials: congruence and closure -/
 namespace B
 open BPoly
